@@ -291,6 +291,7 @@ var selectForms = []string{
 	"select v, w from ks.tbl where k = '%s' and c > ? limit 10",
 	"  \n\tSeLeCt JSON v FROM ks.tbl WHERE k = '%s' ALLOW FILTERING;",
 	"SELECT count(*) FROM ks.tbl WHERE k = '%s' AND v IN (?, ?)",
+	"/* read path */ SELECT * FROM ks.tbl WHERE k = '%s'", // CQL allows comments before the statement
 }
 var writeForms = []string{
 	"INSERT INTO ks.tbl (k, v) VALUES ('%s', ?)",
